@@ -67,7 +67,7 @@ class Probe:
 
     def cond(self, j, v, old, event):
         self.cond_n += 1
-        self.log.append(('cond', j, v, None if old is None else old.v, ev(event), self.cond_n))
+        self.log.append(('cond', j, v, None if old is None else (old.v, len(old.w)), ev(event), self.cond_n))
         self._hook('cond')
         if self.fail_at is not None and self.cond_n == self.fail_at:
             return False
